@@ -8,9 +8,9 @@ import re
 
 import vlib
 
-# with a SERIALIZABLE transaction parked at its gate, its successors (other_tx: INITIALIZING behind it) and the proposals that wait
-# for its proposals (sync_wakeup / commit_hidden_by_apply shapes) are stranded with it
-EXPECTED_FAMILIES = {"serializable_gate", "other_tx", "sync_wakeup", "commit_hidden_by_apply"}
+# F-C09-23 (open): a proposal in APPLYING not woken on synchronisation behind its SERIALIZABLE transaction (family sync_wakeup);
+# the model search may meet it and nothing else
+EXPECTED_FAMILIES = {"sync_wakeup"}
 
 
 def _excuse(ctx, signature, detail, replay):
